@@ -30,7 +30,8 @@ Canon ==
 CellOk ==
   LET eff == Effective(Ev.opt, Ev.hdr) IN
   /\ Ev.opt \in Axis /\ Ev.hdr \in Axis
-  /\ IF eff = "error" THEN Ev.outcome = 0 /\ Ev.stage = "target"
+  \* (a program the resolver rejects fails there, before the target is consulted)
+  /\ IF eff = "error" THEN Ev.outcome = 0 /\ (Ev.rq = "ok" => Ev.stage = "target")
      ELSE /\ canon[eff] # -1 /\ Ev.outcome = canon[eff]
           /\ (Ev.outcome = 0 => Ev.stage # "target")
   \* the resolver never sees the option; with an unknown option there is no call at all
